@@ -9,6 +9,7 @@ import (
 	"fmt"
 	"sort"
 	"strings"
+	"time"
 
 	"golang.org/x/tools/go/ssa"
 )
@@ -24,7 +25,7 @@ type ReplayFile struct {
 	Choices  map[string]int    `json:"choices"`
 	Tape     string            `json:"tape"` // hex, bytes served by the random source in order
 	Fault    *ReplayFault      `json:"fault,omitempty"`
-	Short    []int             `json:"short_reads,omitempty"`
+	Short    []int             `json:"read_lens,omitempty"`
 	Expect   string            `json:"expect"`
 	Msg      string            `json:"msg"`
 	Prefix   []int             `json:"engine_prefix"`
@@ -381,50 +382,62 @@ func (m *Machine) decide(goal *Term) (string, Model) {
 func (m *Machine) decideInt(goal *Term, vars map[string]*Term) (string, Model) {
 	final := "unknown"
 	var fmodel Model
-	answers := 0
-	for i, s := range m.intSol {
-		if i > 0 && !m.cfg.CrossCheck && final != "unknown" {
-			break
-		}
-		s.Push()
-		dropped := 0
-		for _, c := range m.pc {
-			if err := s.Assert(c); err != nil {
-				dropped++
+	answered := map[int]bool{}
+	// pass 1: short time limit on each back end; pass 2: the full limit on
+	// those that did not answer. Without cross-checking the first definite
+	// answer is taken.
+	for pass, limit := range []time.Duration{3 * time.Second, m.cfg.AssertTimeout} {
+		for i := len(m.intSol) - 1; i >= 0; i-- {
+			s := m.intSol[i]
+			if answered[i] || (final != "unknown" && !m.cfg.CrossCheck) {
+				continue
 			}
-		}
-		if err := s.Assert(goal); err != nil {
-			s.Pop()
-			m.res.Notes["int-unprintable-goal"] = err.Error()
-			continue
-		}
-		r := s.Check("assert-int", m.cfg.AssertTimeout)
-		var model Model
-		if r == "sat" {
-			if dropped > 0 {
-				r = "unknown"
-			} else {
-				var ok bool
-				model, ok = s.Values(vars)
-				if !ok {
-					r = "unknown"
+			if pass == 1 && final != "unknown" && limit > 10*time.Second {
+				limit = 10 * time.Second // cross-check only: do not wait long for a second opinion
+			}
+			s.Push()
+			dropped := 0
+			for _, c := range m.pc {
+				if err := s.Assert(c); err != nil {
+					dropped++
 				}
 			}
-		}
-		s.Pop()
-		if r == "unknown" {
-			continue
-		}
-		answers++
-		if final == "unknown" {
-			final, fmodel = r, model
-		} else if final != r {
-			m.res.Inconcl = append(m.res.Inconcl, "INT solvers disagree")
-			return "unknown", nil
+			if err := s.Assert(goal); err != nil {
+				s.Pop()
+				m.res.Notes["int-unprintable-goal"] = err.Error()
+				answered[i] = true
+				continue
+			}
+			r := s.Check("assert-int", limit)
+			var model Model
+			if r == "sat" {
+				if dropped > 0 {
+					r = "unknown"
+				} else {
+					var ok bool
+					model, ok = s.Values(vars)
+					if !ok {
+						r = "unknown"
+					}
+				}
+			}
+			s.Pop()
+			if r == "unknown" {
+				continue
+			}
+			answered[i] = true
+			if final == "unknown" {
+				final, fmodel = r, model
+			} else if final != r {
+				m.res.Inconcl = append(m.res.Inconcl, "INT solvers disagree")
+				return "unknown", nil
+			}
 		}
 	}
-	if answers >= 2 {
+	if len(answered) >= 2 {
 		m.res.Notes["int-xchecked"] = "yes"
+	} else if m.cfg.CrossCheck && final != "unknown" {
+		m.res.Notes["int-xcheck-second-solver-unknown"] = "some"
 	}
 	return final, fmodel
 }
@@ -487,6 +500,7 @@ func (m *Machine) buildReplay(model Model, msg string) *ReplayFile {
 		rf.Fault = &ReplayFault{Read: m.fault.read, N: m.fault.n}
 	}
 	rf.Prefix = append([]int(nil), m.prefix[:m.pos]...)
+	rf.Short = append([]int(nil), m.readLens...)
 	return rf
 }
 
